@@ -24,12 +24,12 @@ def T(name: str, k: str = "ok", n: int = 0, target: str = "", out: dict | None =
 
 
 def S(ref: str, req=(), tasks=None, join="AND", thr=0, cof=False, failp=True, mutex="", choice="",
-      parent="", owner="", enabled=None, ctx=None, region="", split=None, lazy=False, milestone=None) -> dict:
+      parent="", owner="", enabled=None, ctx=None, region="", split=None, lazy=False, milestone=None, midyn=False, instk=0) -> dict:
     if tasks is None:
         tasks = [T(f"{ref}.1")]
     return {"ref": ref, "req": sorted(req), "tasks": tasks, "join": join, "thr": thr, "cof": cof,
             "failp": failp, "mutex": mutex, "choice": choice, "parent": parent, "owner": owner,
-            "enabled": enabled, "ctx": ctx or {}, "region": region, "split": dict(split or {}), "lazy": lazy, "milestone": list(milestone or [])}
+            "enabled": enabled, "ctx": ctx or {}, "region": region, "split": dict(split or {}), "lazy": lazy, "milestone": list(milestone or []), "midyn": midyn, "instk": instk}
 
 
 def P(name: str, stages: list[dict], max_jumps: int = -1, **kw) -> dict:
@@ -139,6 +139,15 @@ def split_family() -> list[dict]:
     return fam
 
 
+def mi_family() -> list[dict]:
+    """WCP-15: instances added to a running multi-instance stage (declared here, created by AddMultiInstance)"""
+    fam = []
+    fam.append(P("midyn", [S("a"), S("w", ["a"], midyn=True, tasks=[T("w.1", "poll", 2)]), S("z", ["w"]),
+                           S("w_instance_1", ["w"], tasks=[], instk=1), S("w_instance_2", ["w"], tasks=[], instk=2),
+                           S("w_instance_3", ["w"], tasks=[], instk=3)]))
+    return fam
+
+
 def milestone_family() -> list[dict]:
     """WCP-18: a stage enabled only while its milestone stage is RUNNING (whether it runs or is skipped depends on the schedule)"""
     fam = []
@@ -191,7 +200,7 @@ def control_family() -> list[dict]:
 
 def all_programs() -> list[dict]:
     return [with_outputs(p) for p in core_family() + extra_family() + control_family() + synthetic_family()
-            + operator_family() + region_family() + split_family() + lazy_family() + halt_family() + milestone_family()]
+            + operator_family() + region_family() + split_family() + lazy_family() + halt_family() + milestone_family() + mi_family()]
 
 
 # ----------------------------------------------------------------------------------------------
@@ -208,8 +217,8 @@ def build_workflow(prog: dict):
 
     stages = []
     for i, sd in enumerate(prog["stages"]):
-        if sd["parent"]:
-            continue  # synthetic children are created by the builder at plan time
+        if sd["parent"] or sd.get("instk"):
+            continue  # synthetic children are created by the builder at plan time, instances by AddMultiInstance
         ctx: dict[str, Any] = {"_script": {t["name"]: t for t in sd["tasks"]}}
         ctx.update(sd.get("ctx") or {})
         if sd["cof"]:
@@ -240,6 +249,10 @@ def build_workflow(prog: dict):
             kw["deferred_choice_group"] = sd["choice"]
         if sd.get("region"):
             kw["cancel_region"] = sd["region"]
+        if sd.get("midyn"):          # WCP-15: instances may be added while it runs
+            from stabilize.models.multi_instance import MultiInstanceConfig
+
+            kw["mi_config"] = MultiInstanceConfig(allow_dynamic=True)
         if sd.get("milestone"):      # WCP-18: [milestone stage ref, required status]
             kw["milestone_ref_id"], kw["milestone_status"] = sd["milestone"]
         if sd.get("split"):     # OR-split (WCP-6): constant conditions, their values are the program's data
@@ -427,6 +440,8 @@ def tla_program(prog: dict) -> dict:
         "mutex": {s["ref"]: s["mutex"] for s in st},
         "region": {s["ref"]: s.get("region", "") for s in st},
         "split": {s["ref"]: dict(s.get("split") or {}) for s in st},
+        "midyn": {s["ref"]: bool(s.get("midyn")) for s in st},
+        "instk": {s["ref"]: int(s.get("instk") or 0) for s in st},
         "msref": {s["ref"]: (s.get("milestone") or ["", ""])[0] for s in st},
         "msstatus": {s["ref"]: (s.get("milestone") or ["", ""])[1] for s in st},
         "choice": {s["ref"]: s["choice"] for s in st},
